@@ -75,6 +75,8 @@ def _worker(args):
         if not isinstance(res, Result):
             raise TypeError("run_unit must return mc.result.Result")
         d = res.to_dict()
+        for v in d.get("violations", []):
+            v["_unit"] = unit
     except BaseException:
         d = Result().to_dict()
         d["harness_errors"] = ["unit %r: %s" % (unit, traceback.format_exc())]
@@ -83,10 +85,14 @@ def _worker(args):
     return d
 
 
-def _write_replay(here, pid, viol):
+def _write_replay(here, pid, viol, history=None):
     body = {"property": pid, "clause": viol["clause"], "case": viol["case"],
             "expected": viol.get("expected"), "observed": viol.get("observed"),
             "features": viol.get("features") or {}}
+    if history is not None:
+        # the case alone does not fail in a fresh interpreter, the case after the preceding cases of its work unit does:
+        # the HISTORY (work unit executed from its start, in one fresh process) is the replay artefact
+        body["history"] = history
     h = hashlib.sha1(canon_json([viol["clause"], viol["case"]]).encode()).hexdigest()[:16]
     d = os.path.join(here, "replays", pid)
     os.makedirs(d, exist_ok=True)
@@ -109,6 +115,19 @@ def _confirm_fresh(here, pid, path):
 def do_replay(drv, pid, path):
     with open(path) as fh:
         doc = json.load(fh)
+    if doc.get("history"):
+        h = doc["history"]
+        res = drv.run_unit(h["unit"], h["tier"])
+        key = canon_json([doc["clause"], doc["case"]])
+        for v in res.violations:
+            if canon_json([v["clause"], v["case"]]) == key:
+                print("REPRODUCED property=%s clause=%s (as the last step of a history in one process: work unit %s executed from "
+                      "its start; the case alone passes - state carried between calls)" % (pid, v["clause"], canon_json(h["unit"])[:300]))
+                print("  expected: %s" % json.dumps(v.get("expected"), default=repr)[:1500])
+                print("  observed: %s" % json.dumps(v.get("observed"), default=repr)[:1500])
+                return 1
+        print("NOT-REPRODUCED property=%s clause=%s (history of work unit)" % (pid, doc["clause"]))
+        return 0
     viols = drv.replay(doc["case"])
     same = [v for v in viols if v["clause"] == doc["clause"]]
     if same:
@@ -251,6 +270,13 @@ def main(argv, here):
         per_clause[c] = per_clause.get(c, 0) + 1
         path = _write_replay(here, pid, v)
         ok, out = _confirm_fresh(here, pid, path)
+        if not ok and v.get("_unit") is not None:
+            # second attempt: the same case as the last step of its work unit's history, again in a fresh interpreter.
+            # Deterministic (run_unit depends on the unit descriptor and the tier only); what it shows is state that the
+            # code under test carries from one call to the next inside one process.
+            path = _write_replay(here, pid, v, history={"unit": v["_unit"], "tier": tier})
+            ok, out2 = _confirm_fresh(here, pid, path)
+            out = out + "\n" + out2
         if ok:
             confirmed.append((v, path))
         else:
